@@ -19,6 +19,8 @@ package main
 //   - a chain of read-modify-write updates of different elements of one object under mutually exclusive guards
 //     (if c0 { v[0]++ } else if c1 { v[1]++ } ...) becomes one update of the selected element (v[k]++ with k the
 //     selected index), which is also what a helper returning the index produces;
+//   - adjacent counted loops over the same range that touch disjoint objects allocated in the function are fused
+//     (copy(T, C) followed by a loop clearing P  ==  one loop doing both);
 //   - allocations (which have no effect but to name a fresh object) move to the earliest point of their region
 //     at which their length and guard are defined, so that declaration order does not matter.
 
@@ -36,6 +38,7 @@ func normalizeSummary(S *Store, sum *Summary) {
 	forwardParamCopies(S, sum)
 	dropDeadObjects(S, sum)
 	dropZeroInit(S, sum)
+	fuseAdjacentLoops(S, sum.Top)
 	mergeExclusiveStores(S, sum.Top)
 	mergeExclusiveUpdates(S, sum, sum.Top)
 	hoistAllocs(sum.Top)
@@ -64,6 +67,8 @@ func restrictLoopsCtx(S *Store, r *Region, ctx *Term) {
 			in = S.Canon(S.And(ctx, l.Guard))
 		}
 		l.Cont = S.RestrictDeep(l.Cont, in)
+		l.Trip = S.RestrictDeep(l.Trip, in)
+		l.Bound = S.RestrictDeep(l.Bound, in)
 		for _, x := range l.Exits {
 			x.Guard = S.RestrictDeep(x.Guard, in)
 		}
@@ -81,6 +86,8 @@ func restrictLoopsCtx(S *Store, r *Region, ctx *Term) {
 				g = S.Canon(S.And(in, e.Guard))
 			}
 			e.Val = S.RestrictDeep(e.Val, g)
+			e.Root = S.RestrictDeep(e.Root, g)
+			rebaseSliceRoot(S, e)
 			for i := range e.Args {
 				e.Args[i] = S.RestrictDeep(e.Args[i], g)
 			}
@@ -277,11 +284,12 @@ func hoistAllocs(r *Region) {
 		pos := idx
 		for pos > 0 {
 			prev := items[pos-1]
-			if pe, ok := prev.(*Event); ok && (pe.Kind == "alloc" || pe.Kind == "panic" || pe.Kind == "return") {
-				break // keep the relative order of allocations; never cross an exit
+			if pe, ok := prev.(*Event); ok && pe.Kind == "alloc" {
+				break // keep the relative order of allocations
 			}
 			dep := false
-			for _, t := range []*Term{e.Guard, e.Len} {
+			// only the length matters: under which condition the object comes into being is immaterial
+			for _, t := range []*Term{e.Len} {
 				if t != nil && DependsOn(t, func(s *Symbol) bool { return definedBy(s, prev) }) {
 					dep = true
 				}
@@ -426,6 +434,8 @@ func restrictByGuard(S *Store, r *Region) {
 			continue
 		}
 		e.Val = S.RestrictDeep(e.Val, e.Guard)
+		e.Root = S.RestrictDeep(e.Root, e.Guard)
+		rebaseSliceRoot(S, e)
 		for i := range e.Args {
 			e.Args[i] = S.RestrictDeep(e.Args[i], e.Guard)
 		}
@@ -775,6 +785,110 @@ func markMonotoneCounters(S *Store, sum *Summary) {
 		}
 		if r.Guard != nil {
 			r.Guard = f(r.Guard)
+		}
+	}
+}
+
+// rebaseSliceRoot: an access whose object is written as a window slice(r, off, len) of r is an access of r at
+// off + index.
+func rebaseSliceRoot(S *Store, e *Event) {
+	if (e.Kind != "load" && e.Kind != "store") || e.Root == nil || e.Root.Op != "slice" || len(e.Path) == 0 || e.Path[0].Ty != TInt {
+		return
+	}
+	off := e.Root.Args[1]
+	np := append([]*Term{}, e.Path...)
+	np[0] = S.Add(off, e.Path[0])
+	e.Path = np
+	e.Root = e.Root.Args[0]
+}
+
+// fuseAdjacentLoops fuses two adjacent loops of one region when both are plain counted loops (one head exit, no
+// loop-carried state) with the same entry condition and trip count, their bodies contain only loads and stores,
+// and every object one of them writes is an object allocated in this function that the other neither reads nor
+// writes (so no iteration of one can observe the other).
+func fuseAdjacentLoops(S *Store, r *Region) {
+	for _, it := range r.Items {
+		if l, ok := it.(*LoopS); ok {
+			fuseAdjacentLoops(S, l.Body)
+		}
+	}
+	plain := func(l *LoopS) bool {
+		if l.Trip == nil || len(l.Exits) != 1 || !l.Exits[0].AtHead || len(nonAffine(l)) > 0 {
+			return false
+		}
+		for _, it := range l.Body.Items {
+			e, ok := it.(*Event)
+			if !ok {
+				return false
+			}
+			if e.Dead {
+				continue
+			}
+			if e.Kind != "load" && e.Kind != "store" {
+				return false
+			}
+			if e.Root == nil || e.Root.K != KSym {
+				return false
+			}
+		}
+		return true
+	}
+	roots := func(l *LoopS) (rd, wr map[*Symbol]bool) {
+		rd, wr = map[*Symbol]bool{}, map[*Symbol]bool{}
+		for _, it := range l.Body.Items {
+			e := it.(*Event)
+			if e.Dead {
+				continue
+			}
+			if e.Kind == "store" {
+				wr[e.Root.Sym] = true
+			} else {
+				rd[e.Root.Sym] = true
+			}
+		}
+		return
+	}
+	fresh := func(sy *Symbol) bool { return sy.Kind == SObj }
+	for changed := true; changed; {
+		changed = false
+		for i := 0; i+1 < len(r.Items); i++ {
+			a, ok1 := r.Items[i].(*LoopS)
+			b, ok2 := r.Items[i+1].(*LoopS)
+			if !ok1 || !ok2 || !plain(a) || !plain(b) || a.Guard != b.Guard {
+				continue
+			}
+			// same trip count once b's counter is renamed to a's
+			sub := map[*Symbol]*Term{b.Iter: S.SymTerm(a.Iter)}
+			memo := map[*Term]*Term{}
+			if S.Subst(b.Trip, sub, memo) != a.Trip {
+				continue
+			}
+			ra, wa := roots(a)
+			rb, wb := roots(b)
+			okDisj := true
+			for sy := range wa {
+				if !fresh(sy) || rb[sy] || wb[sy] {
+					okDisj = false
+				}
+			}
+			for sy := range wb {
+				if !fresh(sy) || ra[sy] || wa[sy] {
+					okDisj = false
+				}
+			}
+			if !okDisj {
+				continue
+			}
+			b.Body.MapTerms(func(t *Term) *Term { return S.Subst(t, sub, memo) })
+			for _, it := range b.Body.Items {
+				if e, ok := it.(*Event); ok {
+					e.Loop = a
+				}
+				a.Body.Items = append(a.Body.Items, it)
+			}
+			r.Items = append(r.Items[:i+1], r.Items[i+2:]...)
+			changed = true
+			break
 		}
 	}
 }
